@@ -157,7 +157,7 @@ def run_stage(ctx):
     nt = lambda k: int(st.get(k, 0))
     # the tie is vacuous if the build logs nothing: machinery failure
     if not res["bad"]:
-        for key, what in (("ev_AR", "add_node"), ("ev_K4", "GOI_NEW"), ("ev_K3", "GOI_FOUND"), ("ev_K6", "GC_REMOVE"), ("ev_K12", "RELEASE")):
+        for key, what in (("ev_AS", "get_slot_from_shared"), ("goi_new", "GOI_NEW"), ("goi_found", "GOI_FOUND"), ("gc_removed", "GC_REMOVE"), ("release", "RELEASE"), ("retain", "RETAIN")):
             if nt(key) == 0:
                 raise vf.CheckFailure(f"the hooks build logged no {what} events: the cfg(oxidd_verif) hooks of /repo (hooks.json) are missing or inactive, or core=1 is not honoured by the harness")
         if nt("cases_followed_to_the_end") * 2 < len(cases):
